@@ -517,7 +517,9 @@ fn round_trip(run: &Run, l: &mut Local, fam: &str, i: u64, eng: &Eng, vals: &Ctx
 
 pub fn run(run: &Run) {
     let seed = run.opts.seed;
-    let mut envs: Vec<Eng> = (0..4).map(|v| Eng::new(rich_env(v))).collect();
+    let mut envs: Vec<Eng> = (0..4)
+        .map(|v| if v % 2 == 1 { Eng::new_after_refusals(rich_env(v)) } else { Eng::new(rich_env(v)) })
+        .collect();
     for e in degenerate_envs() {
         envs.push(Eng::new(e));
     }
@@ -582,8 +584,25 @@ pub fn run(run: &Run) {
                         let k = r.pick(&keys).clone();
                         let v = o.remove(&k).unwrap();
                         o.insert(format!("{}x", k), v);
-                    } else {
+                    } else if r.bool() {
                         o.insert("nosuch".into(), json!(1));
+                    } else {
+                        // unknown names of every length and make-up: empty, very long,
+                        // multi-byte characters at every offset, control characters
+                        let len = [0usize, 1, 2, 7, 31, 32, 33, 63, 64, 65, 66, 127, 128, 129, 255, 256, 257, 1000, 5000][r.below(19)];
+                        let alphabet = ['a', '.', '$', '\u{e9}', '\u{20ac}', '\u{1F600}', '\u{0}', '"', '\\', 'Z'];
+                        let mut k = String::new();
+                        // a random ASCII prefix shifts the multi-byte characters to every residue
+                        for _ in 0..r.below(5) {
+                            k.push('x');
+                        }
+                        while k.len() < len {
+                            k.push(alphabet[r.below(alphabet.len())]);
+                        }
+                        if o.contains_key(&k) || k == "$lists" {
+                            k.push_str("\u{e9}?");
+                        }
+                        o.insert(k, json!(1));
                     }
                 }
                 "unknown-key"
